@@ -42,6 +42,8 @@ type stepMods struct {
 	recover  string
 	retries  int
 	sendFail bool
+	// the wallet cannot create the opening transaction / the chain back-end cannot tell the height
+	openingFail, heightFail bool
 }
 
 type crashInfo struct {
@@ -95,6 +97,10 @@ func parseMods(name string) (*stepMods, string, bool) {
 			m.recover = strings.TrimPrefix(p, "recoverpay=")
 		case p == "send=fail":
 			m.sendFail = true
+		case p == "opening=fail":
+			m.openingFail = true
+		case p == "height=fail":
+			m.heightFail = true
 		case strings.HasPrefix(p, "retries="):
 			m.retries, _ = strconv.Atoi(strings.TrimPrefix(p, "retries="))
 		default:
@@ -188,6 +194,12 @@ func crashHook(sc *Scen, sp *stepSpec) {
 	}
 	if m.sendFail {
 		sp.plan.Send = []bool{false}
+	}
+	if m.openingFail {
+		sp.plan.CreateOpening = []*OpeningRes{nil}
+	}
+	if m.heightFail {
+		sp.plan.Height = []*uint32{nil}
 	}
 	if m.retries > 0 {
 		if mm := sc.current(); mm != nil {
